@@ -22,11 +22,18 @@ MOD = "bbverif.checks.c09"
 SCALARS = ["int", "float", "complex", "np.int64", "np.float64", "np.complex128", "true", "false", "np.bool",
            "str", "str_space", "str_digit", "str_pname"]
 LISTS = ["list_int", "list_float", "list_npint", "list_npfloat", "list_mixed", "list_str", "list_complex", "list_bool", "list_npcomplex", "list_one"]
-ARRAYS = ["arr_int_1x1", "arr_int_2x3", "arr_float_2x2", "arr_float_1x3", "arr_complex_2x2", "arr_complex_1x1", "arr_float_3x1"]
+ARRAYS = ["arr_int_1x1", "arr_int_2x3", "arr_float_2x2", "arr_float_1x3", "arr_complex_2x2", "arr_complex_1x1", "arr_float_3x1", "arr_int_2x2", "arr_int_1x3", "arr_complex_1x3",
+          "arr_float_1x1", "arr_float_1x4"]
+# several arrays in one program whose values may coincide while shape or element type differ (the solver is free to make them equal)
+ARRAY_PAIRS = [("arr_float_2x2", "arr_int_2x2"), ("arr_int_2x2", "arr_float_2x2"), ("arr_float_1x3", "arr_complex_1x3"), ("arr_int_1x3", "arr_float_1x3"),
+               ("arr_float_1x1", "arr_complex_1x1"), ("arr_int_1x1", "arr_float_1x1"), ("arr_float_2x2", "arr_float_1x4"), ("arr_float_2x2", "arr_float_2x2")]
 SYMS = ["sym_param", "sym_affine", "sym_two", "sym_pow"]
 MODEKINDS = ["int1", "npint1", "list_int", "list_npint", "list_mixed"]
 EDGE = [-0.0, 1e-300, 1e300, 5e-324, 1e16, 1.5e-07, 123456789.125, -1e-05, complex(-0.0, 2.0), complex(1.5, -0.0), complex(-1e-300, -1e300),
         np.float64(-0.0), np.float64(1e-310), np.complex128(complex(0.0, -0.0)), np.int64(-2 ** 63), 2 ** 62, np.float32(0.1) * 0 + 0.5]
+
+EDGE_PAIRS = [([[0.0, 1.0]], [[-0.0, 1.0]]), ([[1, 0], [0, 1]], [[1.0, 0.0], [0.0, 1.0]]), ([[0.0, 0.0]], [[0, 0]]), ([[1.0, 2.0]], [[1 + 0j, 2 + 0j]]),
+              ([[1, 0, 0, 1]], [[1, 0], [0, 1]]), ([[-0.0]], [[0.0]])]
 
 TAGS = {"int": int, "float": float, "complex": complex, "np.int64": np.int64, "np.float64": np.float64, "np.complex128": np.complex128}
 
@@ -182,6 +189,10 @@ def build(spec, vs):
                 prog._operations.append({"op": "N%d" % idx, "modes": [idx]})
             else:
                 prog._operations.append(op_for(slot, vk, idx))
+    elif kind == "edgepair":
+        a, b = EDGE_PAIRS[spec[1]]
+        prog._operations.append({"op": "G", "args": [np.array(a)], "kwargs": {"k": np.array(b)}, "modes": [0]})
+        prog._operations.append({"op": "H", "args": [np.array(b), np.array(a)], "kwargs": {}, "modes": [1]})
     elif kind == "edge":
         _, slot, i = spec
         v = EDGE[i]
@@ -228,6 +239,11 @@ def gen_specs(tier, seed):
         combos += list(itertools.permutations(pool, 3))[::6]
     for c in combos:
         specs.append(("multi", tuple(c)))
+    for a, b in ARRAY_PAIRS:
+        specs.append(("multi", (("pos", a), ("pos", b))))
+        specs.append(("multi", (("kw", a), ("pos", b), ("noargs", None))))
+    for i in range(len(EDGE_PAIRS)):
+        specs.append(("edgepair", i))
     for i in range(len(EDGE)):
         for slot in ("pos", "kw", "list", "opt", "arr"):
             specs.append(("edge", slot, i))
@@ -238,9 +254,10 @@ def run_spec(spec):
     w = _script.winit()
     bb = w["bb"]
     out = {"spec": spec, "result": "holds", "paths": 0, "stats": None, "why": None, "cex": None, "funcs": [], "reach": 0}
-    if spec[0] == "edge":
+    if spec[0] in ("edge", "edgepair"):
         r = concrete_check(spec, [], w)
-        out.update(text="edge value %r in slot %s (concrete instantiation)" % (EDGE[spec[2]], spec[1]), paths=1, reach=1, validated=1)
+        out.update(text=("edge value %r in slot %s (concrete instantiation)" % (EDGE[spec[2]], spec[1])) if spec[0] == "edge" else
+                   "arrays %r and %r in one program (concrete instantiation)" % EDGE_PAIRS[spec[1]], paths=1, reach=1, validated=1)
         if isinstance(r, dict):
             r["symbolic_what"] = r["what"]
             out.update(result="violation", cex=r)
